@@ -82,3 +82,25 @@ func spec_lvOK(lv lua.LValue) bool {
 //@   ensures[errorMeansNoAnswer C17] ghost_lastState(h.pool) != nil && ghost_lastCallErr(ghost_lastState(h.pool)) != nil ==> ret == nil
 //@   ensures[answerIsTheScripts C17] ret != nil ==> ghost_lastState(h.pool) != nil && ghost_lastCallErr(ghost_lastState(h.pool)) == nil && spec_holds(ghost_lastGot(ghost_lastState(h.pool)), ret)
 //@   serves C17
+
+// The message-stored hook: same shape.  A failing script, or one that returns anything but an
+// inbound_message, has not answered (nil: the message is stored as it arrived); otherwise the answer is
+// exactly the message the script returned.  Whatever the script returns, the Go glue does not panic.
+//@ pred spec_holdsMsg(v lua.LValue, m *event.InboundMessage) bool = v.(*lua.LUserData) != nil && v.(*lua.LUserData).Value.(*event.InboundMessage) == m
+
+//@ func wrapInboundMessage
+//@   requires ls != nil
+//@   ensures ret != nil && vcFresh(ret) && ret.Value == any(val)
+//@   serves C17
+
+//@ func unwrapInboundMessage
+//@   requires lv != nil && spec_lvOK(lv)
+//@   ensures[unwraps C17] (ret1 != nil ==> ret0 == nil) && (ret0 != nil ==> ret1 == nil && spec_holdsMsg(lv, ret0))
+//@   serves C17
+
+//@ func (*Host).handleBeforeMessageStored
+//@   requires h != nil && h.pool != nil
+//@   modifies allof(ghost_lastState), allof(ghost_lastCallErr), allof(ghost_lastPushed), allof(ghost_lastGot)
+//@   ensures[errorMeansNoAnswer C17] ghost_lastState(h.pool) != nil && ghost_lastCallErr(ghost_lastState(h.pool)) != nil ==> ret == nil
+//@   ensures[answerIsTheScripts C17] ret != nil ==> ghost_lastState(h.pool) != nil && ghost_lastCallErr(ghost_lastState(h.pool)) == nil && spec_holdsMsg(ghost_lastGot(ghost_lastState(h.pool)), ret)
+//@   serves C17
